@@ -145,7 +145,7 @@ class Runner:
                 k = op[1]
                 rows = [self.row() for _ in range(k)]
                 before = n
-                arr.append_multiple(np.array(rows))
+                arr.append_multiple(np.array(rows, dtype=float).reshape(k, self.width))  # k = 0: an empty batch of the right width
                 m.extend(rows)
                 self._boundary(before, k)
                 self.rebase_after_drop(k)
@@ -248,12 +248,12 @@ def replay(case):
 
 
 # --------------------------------------------------------------------------------------------
-ALPHABET = ([('append',)] + [('appendm', k) for k in (1, 2, 3, 4)] + [('delete', i) for i in (0, 1, 2, 3)] + [('flush',)]
+ALPHABET = ([('append',)] + [('appendm', k) for k in (0, 1, 2, 3, 4)] + [('delete', i) for i in (0, 1, 2, 3)] + [('flush',)]
             + [('set', i) for i in (-2, -1, 0, 1)]
             + [('setslice', a, b) for a, b in ((None, None), (None, 2), (0, None), (1, None), (-1, None), (-2, None), (-2, -1), (0, 1), (1, 3), (None, -1))])
 
 
-CAPACITY_ALPHABET = [('append',), ('appendm', 1), ('appendm', 2), ('appendm', 3), ('delete', 0), ('delete', 1), ('flush',)]
+CAPACITY_ALPHABET = [('append',), ('appendm', 0), ('appendm', 1), ('appendm', 2), ('appendm', 3), ('delete', 0), ('delete', 1), ('flush',)]
 
 
 def exhaustive(acc, shard, nshards, maxlen, buckets=(2, 3), alphabet=None, name='exhaustive'):
@@ -289,7 +289,7 @@ def run_shard(acc, shard, nshards, seed, tier):
     bound = st.one_of(st.none(), st.integers(-14, 14))
     op = st.one_of(
         st.just(('append',)), st.just(('append',)),
-        st.tuples(st.just('appendm'), st.integers(1, 14)),
+        st.tuples(st.just('appendm'), st.integers(0, 14)),
         st.tuples(st.just('delete'), st.integers(0, 12)),
         st.tuples(st.just('append_own'), st.sampled_from([0, -1, -1, 1, -2, 3, -5])),
         st.tuples(st.just('appendm_own'), bound, bound),
